@@ -81,6 +81,7 @@ func newEvEnv(pt uint64, gasPrice *big.Int, eligible *bool) *evEnv {
 		CheckIfEtxEligible: func(common.Hash, common.Location) bool { return *eligible },
 		BlockNumber:        new(big.Int).SetUint64(pt), Time: big.NewInt(1), Difficulty: big.NewInt(1), BaseFee: big.NewInt(1),
 		GasLimit: 30_000_000, QuaiStateSize: big.NewInt(1000), PrimeTerminusNumber: pt,
+		PrimaryCoinbase: common.NewAddressFromData(ptr(evContract(0xcb))),
 	}
 	tctx := vm.TxContext{Origin: common.NewAddressFromData(ptr(evContract(0xee))), GasPrice: gasPrice, Hash: common.BytesToHash([]byte{7})}
 	e := vm.NewEVM(bctx, tctx, sdb, &cfg, vm.Config{}, nil)
@@ -189,15 +190,17 @@ func runEVM(seed uint64, n int, outDir string, replay string) {
 					ans(fmt.Sprintf("panic %v", p))
 				}
 			}()
-			switch rc.Intn(10) {
+			switch rc.Intn(12) {
 			case 0, 1, 2:
 				evOneETX(o, rc, ans)
 			case 3, 4:
 				evOneConvert(o, rc, ans)
 			case 5, 6:
 				evOneCall(o, rc, ans)
-			default:
+			case 7, 8:
 				evTree(o, rc, ans)
+			default:
+				evValueTree(o, rc, ans)
 			}
 		}()
 		o.EndCase(fmt.Sprint(rc.U64()), true)
@@ -549,5 +552,235 @@ func evTree(o *h.Out, rc *h.Rng, ans func(string)) {
 	// T3: what left the contracts' balances is exactly what the recorded ETXs carry (fee is 0 here)
 	if d := new(big.Int).Sub(totalBefore, totalAfter); d.Cmp(sum) != 0 {
 		o.Violate("c05-debit-not-equal-recorded-etx-value", fmt.Sprintf("contracts were debited %s in total but the outbound set carries %s (tree %s)", d, sum, sb.String()))
+	}
+}
+
+// ---- value trees (C02): frames that move value, emit ETXs and self-destruct -------------------------------
+
+type vNode struct {
+	kind   vm.OpCode
+	value  int
+	addr   int
+	items  []any // int: emit value | -ben: selfdestruct to ben | *vNode
+	revert bool
+	depth  int
+}
+
+func vGen(rc *h.Rng, depth int, naddr int) *vNode {
+	nd := &vNode{addr: 1 + rc.Intn(naddr), depth: depth}
+	k := 1 + rc.Intn(4)
+	for i := 0; i < k; i++ {
+		switch x := rc.Intn(100); {
+		case x < 35 && depth < 3:
+			kinds := []vm.OpCode{vm.CALL, vm.CALL, vm.DELEGATECALL, vm.CALLCODE, vm.STATICCALL}
+			ch := vGen(rc, depth+1, naddr)
+			ch.kind = kinds[rc.Intn(len(kinds))]
+			if (ch.kind == vm.CALL || ch.kind == vm.CALLCODE) && rc.Chance(70) {
+				ch.value = rc.Intn(400)
+			}
+			nd.items = append(nd.items, ch)
+		case x < 50:
+			nd.items = append(nd.items, -(1 + rc.Intn(naddr))) // SELFDESTRUCT to some account (maybe itself)
+		default:
+			nd.items = append(nd.items, 1+rc.Intn(300))
+		}
+	}
+	nd.revert = rc.Chance(30)
+	return nd
+}
+
+// vCompile: code of one node; children are separate contracts holding their own code, called at their address
+func vCompile(nd *vNode, codes map[*vNode]common.InternalAddress) []byte {
+	a := &asm{}
+	for _, it := range nd.items {
+		switch x := it.(type) {
+		case int:
+			if x > 0 {
+				a.pushN(0).pushN(0).pushN(0).pushN(0).pushN(0).pushN(0).pushN(21000).pushN(uint64(x)).pushB(evForeign).pushN(0).op(vm.ETX).op(vm.POP)
+			} else {
+				ben := evContract(-x)
+				a.pushB(ben[:]).op(vm.SELFDESTRUCT)
+			}
+		case *vNode:
+			ca := codes[x]
+			gas := evChildGas[x.depth]
+			switch x.kind {
+			case vm.CALL, vm.CALLCODE:
+				a.pushN(0).pushN(0).pushN(0).pushN(0).pushN(uint64(x.value)).pushB(ca[:]).pushN(gas).op(x.kind).op(vm.POP)
+			default:
+				a.pushN(0).pushN(0).pushN(0).pushN(0).pushB(ca[:]).pushN(gas).op(x.kind).op(vm.POP)
+			}
+		}
+	}
+	if nd.revert {
+		a.pushN(0).pushN(0).op(vm.REVERT)
+	} else {
+		a.op(vm.STOP)
+	}
+	return a.b
+}
+
+func vSerialize(nd *vNode, sb *strings.Builder) {
+	for _, it := range nd.items {
+		switch x := it.(type) {
+		case int:
+			if x > 0 {
+				fmt.Fprintf(sb, "e%d ", x)
+			} else {
+				fmt.Fprintf(sb, "x%d ", -x)
+			}
+		case *vNode:
+			k := map[vm.OpCode]string{vm.CALL: "c", vm.DELEGATECALL: "d", vm.CALLCODE: "o", vm.STATICCALL: "s"}[x.kind]
+			v := ""
+			if x.kind == vm.CALL || x.kind == vm.CALLCODE {
+				v = fmt.Sprint(x.value)
+			}
+			fmt.Fprintf(sb, "(%s%s@%d ", k, v, x.addr)
+			vSerialize(x, sb)
+			if x.revert {
+				sb.WriteString(")r ")
+			} else {
+				sb.WriteString(")c ")
+			}
+		}
+	}
+}
+
+func evValueTree(o *h.Out, rc *h.Rng, ans func(string)) {
+	pt := params.SelfDestructRefundForkBlock + 10
+	once := true
+	if rc.Chance(30) {
+		pt, once = params.SelfDestructRefundForkBlock-10, false
+	}
+	eligible := true
+	env := newEvEnv(pt, big.NewInt(1), &eligible)
+	naddr := 2 + rc.Intn(3)
+	root := vGen(rc, 0, naddr)
+	root.kind, root.addr, root.value = vm.CALL, 1, 0
+	// every node gets its own account (addresses 1..k in creation order), so that an account's code is its node
+	var nodes []*vNode
+	var number func(nd *vNode)
+	number = func(nd *vNode) {
+		nodes = append(nodes, nd)
+		nd.addr = len(nodes)
+		for _, it := range nd.items {
+			if c, ok := it.(*vNode); ok {
+				number(c)
+			}
+		}
+	}
+	number(root)
+	k := len(nodes)
+	if k > 12 {
+		return
+	}
+	// self-destruct beneficiaries range over the existing accounts
+	for _, nd := range nodes {
+		for i, it := range nd.items {
+			if x, ok := it.(int); ok && x < 0 {
+				nd.items[i] = -(1 + rc.Intn(k))
+			}
+		}
+	}
+	codes := map[*vNode]common.InternalAddress{}
+	for _, nd := range nodes {
+		codes[nd] = evContract(nd.addr)
+	}
+	var bals []string
+	total := new(big.Int)
+	for _, nd := range nodes {
+		ca := evContract(nd.addr)
+		env.sdb.CreateAccount(ca)
+		env.sdb.SetCode(ca, vCompile(nd, codes))
+		b := big.NewInt(int64(rc.Intn(1500)))
+		env.sdb.AddBalance(ca, b)
+		bals = append(bals, b.String())
+		total.Add(total, b)
+	}
+	refund := new(big.Int).Mul(env.evm.Context.BaseFee, new(big.Int).SetUint64(params.CallNewAccountGas(env.evm.Context.QuaiStateSize)))
+	var sb strings.Builder
+	vSerialize(root, &sb)
+	rv := ")c"
+	if root.revert {
+		rv = ")r"
+	}
+	o.Op("vtree refund=%s once=%s bal=%s (c0@1 %s%s", refund, b01(once), strings.Join(bals, ","), sb.String(), rv)
+	c1 := evContract(1)
+	viaMessage := rc.Bool()
+	var msgEtxs []*types.Transaction
+	payer := evContract(0xee)
+	price := big.NewInt(int64(1 + rc.Intn(5)))
+	gasLimit := uint64(25_000_000)
+	payerBefore := new(big.Int).Mul(new(big.Int).SetUint64(gasLimit), big.NewInt(7))
+	if viaMessage {
+		// the whole transaction: buy gas, execute, refund (core.ApplyMessage)
+		env.sdb.CreateAccount(payer)
+		env.sdb.AddBalance(payer, payerBefore)
+		env.evm.TxContext.GasPrice = price
+		to := common.NewAddressFromData(&c1)
+		var al types.AccessList // every contract the tree touches is declared, as a real transaction must
+		for _, nd := range nodes {
+			ca := evContract(nd.addr)
+			al = append(al, types.AccessTuple{Address: common.NewAddressFromData(&ca)})
+		}
+		msg := types.NewMessage(common.NewAddressFromData(&payer), &to, 0, new(big.Int), gasLimit, price, nil, al, false)
+		gp := new(types.GasPool).AddGas(gasLimit)
+		res, err := core.ApplyMessage(env.evm, msg, gp)
+		if err != nil {
+			o.Violate("c02-applymessage-error", err.Error())
+		} else {
+			msgEtxs = res.Etxs
+			charge := new(big.Int).Sub(payerBefore, env.sdb.GetBalance(payer))
+			lo := new(big.Int).Mul(new(big.Int).SetUint64(res.UsedGas), price)
+			hi := new(big.Int).Mul(new(big.Int).SetUint64(gasLimit), price)
+			if charge.Cmp(lo) < 0 || charge.Cmp(hi) > 0 {
+				o.Violate("c02-gas-charge-out-of-bounds", fmt.Sprintf("payer charged %s, gas used x price = %s, gas limit x price = %s", charge, lo, hi))
+			}
+			if res.Failed() {
+				for i, nd := range nodes {
+					if env.sdb.GetBalance(evContract(nd.addr)).String() != bals[i] {
+						o.Violate("c02-failed-tx-changes-balances", fmt.Sprintf("tx failed (%v) but account %d went from %s to %s", res.Err, nd.addr, bals[i], env.sdb.GetBalance(evContract(nd.addr))))
+					}
+				}
+			}
+		}
+		o.Count("vtree:via-applymessage")
+	} else {
+		env.evm.Call(vm.AccountRef(common.NewAddressFromData(&payer)), common.NewAddressFromData(&c1), nil, gasLimit, new(big.Int))
+	}
+	var after []string
+	sum := new(big.Int)
+	for _, nd := range nodes {
+		b := env.sdb.GetBalance(evContract(nd.addr))
+		after = append(after, b.String())
+		sum.Add(sum, b)
+	}
+	var es []string
+	esum := new(big.Int)
+	emitted := env.evm.ETXCache
+	if viaMessage {
+		emitted = msgEtxs
+	}
+	for _, x := range emitted {
+		snd := x.ETXSender().Bytes()
+		es = append(es, fmt.Sprintf("%d:%s", snd[19], x.Value()))
+		esum.Add(esum, x.Value())
+	}
+	ans(fmt.Sprintf("bal=%s etxs=%s", strings.Join(after, ","), strings.Join(es, ",")))
+	// T3: the sum of balances plus what the ETXs carry never exceeds the sum before plus one refund per SELFDESTRUCT executed
+	nsd := 0
+	for _, nd := range nodes {
+		for _, it := range nd.items {
+			if x, ok := it.(int); ok && x < 0 {
+				nsd++
+			}
+		}
+	}
+	bound := new(big.Int).Add(total, new(big.Int).Mul(refund, big.NewInt(int64(nsd))))
+	if new(big.Int).Add(sum, esum).Cmp(bound) > 0 {
+		o.Violate("c02-value-created", fmt.Sprintf("balances %s + ETX value %s exceed the %s held before plus %d refunds of %s", sum, esum, total, nsd, refund))
+	}
+	if nsd == 0 && new(big.Int).Add(sum, esum).Cmp(total) != 0 {
+		o.Violate("c02-sum-not-conserved", fmt.Sprintf("without self-destructs: balances %s + ETX value %s != %s before", sum, esum, total))
 	}
 }
